@@ -89,7 +89,38 @@ fn cmd_cases(args: &[String], engine_for: EngineFor) {
 
 /// Fingerprint of a case run alone in a fresh child process of this binary (`None`: the child did
 /// not end normally).
+enum Iso {
+    Fingerprint(String),
+    /// the child was killed by a signal (abort, segmentation fault): what it printed last
+    Died(String),
+    Unknown,
+}
+
 fn isolated_fingerprint(case: &Case, args: &[String]) -> Option<String> {
+    match isolated_run(case, args) {
+        Iso::Fingerprint(f) => Some(f),
+        _ => None,
+    }
+}
+
+fn isolated_run(case: &Case, args: &[String]) -> Iso {
+    isolated_run_inner(case, args, None).unwrap_or(Iso::Unknown)
+}
+
+/// the replay of a finding does not know which environment the worker's comparison child had: all of them
+fn isolated_run_all_envs(case: &Case, args: &[String], in_sequence_fp: &str) -> Iso {
+    let mut last = Iso::Unknown;
+    for k in 0..3 {
+        match isolated_run_inner(case, args, Some(k)).unwrap_or(Iso::Unknown) {
+            Iso::Died(d) => return Iso::Died(d),
+            Iso::Fingerprint(f) if f != in_sequence_fp => return Iso::Fingerprint(f),
+            other => last = other,
+        }
+    }
+    last
+}
+
+fn isolated_run_inner(case: &Case, args: &[String], env_choice: Option<u64>) -> Option<Iso> {
     static N: std::sync::atomic::AtomicU64 = std::sync::atomic::AtomicU64::new(0);
     let n = N.fetch_add(1, std::sync::atomic::Ordering::Relaxed);
     let dir = std::env::temp_dir();
@@ -102,18 +133,18 @@ fn isolated_fingerprint(case: &Case, args: &[String]) -> Option<String> {
         fn prctl(option: i32, arg2: u64, arg3: u64, arg4: u64, arg5: u64) -> i32;
         fn sched_setaffinity(pid: i32, cpusetsize: usize, mask: *const u64) -> i32;
     }
-    // every second comparison child lives in a different environment: one CPU only (so that
-    // available_parallelism() == 1 there: DashMap gets 4 shards instead of 4 x cores). Its hash
-    // seeds and allocation addresses differ from the worker's anyway.
-    let one_cpu = n % 2 == 1;
+    // comparison children live in different environments: all CPUs, one CPU, three CPUs (so that
+    // available_parallelism() - DashMap's shard count, worker counts - differs, incl. a count that
+    // is not a power of two). Hash seeds and allocation addresses differ from the worker's anyway.
+    let cpu_mask: u64 = [0u64, 0b1, 0b111][(env_choice.unwrap_or(n) % 3) as usize];
     let mut cmd = std::process::Command::new(exe);
-    cmd.arg("run-case").arg(&path).arg("--repo").arg(repo).env_remove("VERIF_ANNOUNCE").stdout(std::process::Stdio::piped()).stderr(std::process::Stdio::null());
+    cmd.arg("run-case").arg(&path).arg("--repo").arg(repo).env_remove("VERIF_ANNOUNCE").stdout(std::process::Stdio::piped()).stderr(std::process::Stdio::piped());
     // SAFETY: prctl(PR_SET_PDEATHSIG, SIGKILL) is async-signal-safe: the child dies with this worker
     unsafe {
         cmd.pre_exec(move || {
             prctl(1, 9, 0, 0, 0);
-            if one_cpu {
-                let mask = [1u64; 1];
+            if cpu_mask != 0 {
+                let mask = [cpu_mask; 1];
                 sched_setaffinity(0, 8, mask.as_ptr());
             }
             Ok(())
@@ -143,14 +174,25 @@ fn isolated_fingerprint(case: &Case, args: &[String]) -> Option<String> {
         }
     };
     let _ = std::fs::remove_file(&path);
-    status?;
+    let status = status?;
     let mut text = String::new();
+    let mut err_text = String::new();
     {
         use std::io::Read;
         child.stdout.take()?.read_to_string(&mut text).ok()?;
+        let mut raw = Vec::new();
+        let _ = child.stderr.take()?.read_to_end(&mut raw);
+        err_text = String::from_utf8_lossy(&raw).into_owned();
+    }
+    {
+        use std::os::unix::process::ExitStatusExt;
+        if let Some(sig) = status.signal() {
+            let tail: String = err_text.lines().rev().take(4).collect::<Vec<_>>().into_iter().rev().collect::<Vec<_>>().join(" | ");
+            return Some(Iso::Died(format!("signal {sig} with CPU mask {cpu_mask:#b}: {tail}")));
+        }
     }
     let v: serde_json::Value = serde_json::from_str(text.trim().rsplit('\n').next()?).ok()?;
-    v.get("fingerprint").and_then(|f| f.as_str()).map(|s| s.to_string())
+    v.get("fingerprint").and_then(|f| f.as_str()).map(|s| Iso::Fingerprint(s.to_string()))
 }
 
 /// A case that stands for "the path of worker `shard` from `from_unit` up to case `sub` of `unit`,
@@ -195,7 +237,15 @@ fn run_shard_prefix(case: &Case, args: &[String], engine_for: EngineFor) -> Outc
                     v.signature.push_str(" [needs the worker path before it]");
                 }
                 if out.violation.is_none() {
-                    match isolated_fingerprint(&c, args) {
+                    let run = isolated_run_all_envs(&c, args, &format!("{:016x}", out.fingerprint));
+                    if let Iso::Died(desc) = &run {
+                        out.violate(
+                            format!("{} case dies when run alone in a fresh process with another CPU set (environment)", case.prop),
+                            format!("case {}:{} completes after the worker path but its run alone ended with {desc}", unit.id, sub),
+                        );
+                        return out;
+                    }
+                    match (match run { Iso::Fingerprint(f) => Some(f), _ => None }) {
                         Some(f) if f != format!("{:016x}", out.fingerprint) => out.violate(
                             format!("{} result depends on what the process did before or on its environment (process-wide state, CPU count)", case.prop),
                             format!("case {}:{} gave fingerprint {:016x} after the worker path, {} alone in a fresh process: {}", unit.id, sub, out.fingerprint, f, c.origin),
@@ -291,9 +341,18 @@ fn run_unit(eng: &dyn Engine, unit: &UnitSpec, progress: Option<&File>, skip: &[
         let mut explicit_override: Option<Case> = None;
         if let Some(k) = isolate_every {
             if out.violation.is_none() && sub as u64 % k == 0 && iso_violations < 3 {
-                if let Some(f) = isolated_fingerprint(&case, iso.args) {
+                let run = isolated_run(&case, iso.args);
+                if let Iso::Died(desc) = &run {
+                    iso_violations += 1;
+                    out.violate(
+                        format!("{} case dies when run alone in a fresh process with another CPU set (environment)", eng.prop()),
+                        format!("case {}:{} completes in the worker process but its run alone ended with {desc}: {}", unit.id, sub, case.origin),
+                    );
+                    explicit_override = Some(shard_prefix_case(eng.prop(), iso.args, iso.shard, iso.first_unit, unit.id, sub as u64));
+                }
+                if let Iso::Fingerprint(f) = run {
                     out.probes.push(("reach:case-compared-with-its-run-alone-in-a-fresh-process", 1));
-                    if f != format!("{:016x}", out.fingerprint) {
+                    if eng.isolate_compares_fingerprints() && f != format!("{:016x}", out.fingerprint) {
                         iso_violations += 1;
                         out.violate(
                             format!("{} result depends on what the process did before or on its environment (process-wide state, CPU count)", eng.prop()),
